@@ -94,9 +94,10 @@ Theorem C05_layered_error_passes : forall A (g : archive -> outcome A) e f er,
   BinFormat.from_bytes e f = Err er -> (a <- BinFormat.from_bytes e f ;; g a) = Err er.
 Proof. exact (@C05Rejects.layered_error_passes). Qed.
 
-(* anything accepted can be re-serialized without panicking, in both modes *)
-Theorem C05_bin_reserialize_no_panic : forall e f a m p,
-  wfb f -> BinFormat.from_bytes e f = Ok a -> BinFormat.serialize m a <> Panic p.
+(* anything accepted can be re-serialized without panicking, in both modes, whatever the sort key of label names
+   (Model/BinFormat.v name_key: the big-endian label order compares the DECODED names) *)
+Theorem C05_bin_reserialize_no_panic : forall kf e f a m p,
+  wfb f -> BinFormat.from_bytes e f = Ok a -> BinFormat.serialize_k kf m a <> Panic p.
 Proof. exact reserialize_no_panic. Qed.
 
 (* ---------------------------------------------------------------- GameCube/Wii pack *)
@@ -151,15 +152,15 @@ Proof. exact TextTotal.text_from_archive_fuel_never_exhausted. Qed.
    Err(EncodingFailed) for an accepted file one of whose strings was decoded lossily - e.g. data 81 00 00 00, Unicode format:
    title U+FFFD - because to_shift_jis fails; an Err is not a panic.) *)
 Theorem C05_text_reserialize_no_panic : forall fmt e f t, TextFormat.from_bytes fmt e f = Ok t ->
-  forall m e' k, TextFormat.serialize m fmt e' t <> Panic k.
+  forall kf m e' k, TextFormat.serialize kf m fmt e' t <> Panic k.
 Proof. exact TextArcTotal.text_accepted_reserialize_no_panic. Qed.
 (* the writer is total on every text archive value OF THE MODEL, i.e. on ENCODED strings (Shift-JIS bytes / UTF-16 units):
    the Ok conclusion is conditional on A-codec - it describes the library for archives whose strings lie in the codec's
    image (to_shift_jis succeeds and gives these bytes); for other strings the library answers Err(EncodingFailed), which the
    model does not have.  No panic in either case (the theorem above and C05_text_serialize_no_panic). *)
-Theorem C05_text_serialize_total_on_encoded : forall m fmt e t, exists f, TextFormat.serialize m fmt e t = Ok f.
+Theorem C05_text_serialize_total_on_encoded : forall kf m fmt e t, exists f, TextFormat.serialize kf m fmt e t = Ok f.
 Proof. exact TextTotal.text_serialize_ok. Qed.
-Theorem C05_text_serialize_no_panic : forall m fmt e t k, TextFormat.serialize m fmt e t <> Panic k.
+Theorem C05_text_serialize_no_panic : forall kf m fmt e t k, TextFormat.serialize kf m fmt e t <> Panic k.
 Proof. exact TextTotal.text_serialize_no_panic. Qed.
 (* a bin header that declares more than the buffer holds (or a buffer without a header) is rejected by the text reader too *)
 Theorem C05_text_header_rejected : forall fmt e f dsz pc lc,
